@@ -528,6 +528,8 @@ def sig_src(d, ctx, with_body):
     params = ["_rqctx: RequestContext<%s>" % ctx]
     if d["query"]:
         params.append("_q: Query<QueryArgs>")
+    for k in range(d.get("extra_queries", 0)):
+        params.append("_q%d: Query<QueryArgs>" % k)
     if d["path_vars"]:
         params.append("_p: Path<%s>" % path_ty(d))
     if d["kind"] == "channel":
@@ -605,11 +607,11 @@ pub struct Reply {
 """
 
 
-def render_batch(batch, seed, decls, panics, tagcfgs=None, tag_eps=None):
+def render_batch(batch, seed, decls, panics, tagcfgs=None, tag_eps=None, extra_versions=()):
     consts = "".join("pub const %s: semver::Version = semver::Version::new(%s);\n" % (
-        vconst(v), ", ".join(v.split("."))) for v in VERSIONS)
+        vconst(v), ", ".join(v.split("."))) for v in VERSIONS + [x for x in extra_versions if x not in VERSIONS])
     vers_consts = "".join("    pub const %s: semver::Version = semver::Version::new(%s);\n" % (
-        vconst(v), ", ".join(v.split("."))) for v in VERSIONS)
+        vconst(v), ", ".join(v.split("."))) for v in VERSIONS + [x for x in extra_versions if x not in VERSIONS])
     o = [HEADER % {"batch": batch, "seed": seed, "n": len(decls), "consts": consts,
                    "vers_consts": vers_consts}]
     for d in decls + panics:
@@ -690,6 +692,126 @@ def render_batch(batch, seed, decls, panics, tagcfgs=None, tag_eps=None):
     return "".join(o)
 
 
+# ----------------------------------------------------------------- the large-scope batch
+# Deterministic declarations that push every size-like dimension of a declaration across the
+# usual round numbers (8/16/32/64/128/256, u8/u32/i64/u64 limits).
+
+LARGE_BATCH = 9
+U64 = str((1 << 64) - 1)
+LARGE_VERSIONS = [U64 + ".0.0", "%s.%s.%s" % (U64, U64, U64), str((1 << 64) - 2) + ".0.0",
+                  "4294967296.4294967296.4294967296", "255.256.257"]
+
+
+def large_doc(rng, nlines, style, target_bytes=None):
+    """a doc comment of nlines text lines (or about target_bytes bytes) in one comment style"""
+    lines = []
+    while (len(lines) < nlines) if target_bytes is None else (sum(len(l.encode()) + 8 for l in lines) < target_bytes):
+        i = len(lines)
+        if i % 7 == 3:
+            lines.append("")                                   # paragraph break
+        elif i % 11 == 5:
+            lines.append(phrase(rng, 2, 5) + "-")              # hyphen continuation
+        elif i % 13 == 6:
+            lines.append("- " + phrase(rng, 1, 4))             # bullet
+        else:
+            lines.append("L%d " % i + phrase(rng, 2, 7))
+    lines[0] = "Summary of %d lines ünï" % len(lines)
+    lines[-1] = "last line %d." % (len(lines) - 1)
+    trail = lambda i: ["", " ", "  ", "\t", "\u3000"][i % 5]  # noqa: E731
+    if style == "line":
+        return [("line", " " + l + trail(i)) for i, l in enumerate(lines)]
+    if style == "attr-per-line":
+        return [("attr", "  " + l + trail(i)) for i, l in enumerate(lines)]
+    if style == "attr":
+        return [("attr", "\n".join(" " + l + trail(i) for i, l in enumerate(lines)))]
+    if style == "block-decorated":
+        body = [""] + [INDENT + " * " + l + trail(i) if l else INDENT + " *" for i, l in enumerate(lines)] \
+            + [INDENT + " "]
+    else:  # block-plain
+        body = [""] + [INDENT + " " + l + trail(i) for i, l in enumerate(lines)] + [INDENT + " "]
+    t = "\n".join(body).replace("*/", "* /").replace("/*", "/ *")
+    assert ok_block(t)
+    return [("block", t)]
+
+
+def large_decls(rng):
+    batch = LARGE_BATCH
+    out = []
+
+    def add(dims, doc=None, **kw):
+        base = dict(kind="endpoint", method="GET", body="none", content_type=None, max_bytes=None,
+                    versions=None, unpublished=False, tags=[], operation_id=None, query=False,
+                    deprecated=False, ret="ok", path_suffix=("", [], None))
+        base.update(kw)
+        d = rand_decl(rng, batch, len(out), doc=doc if doc is not None else [], label="large", **base)
+        d["large"] = ["large:" + x for x in dims]
+        out.append(d)
+        return d
+
+    # number of tags on one endpoint
+    for n in (9, 17, 33):
+        add(["tags:%d" % n], tags=["tag%02d" % i for i in range(n)])
+    add(["tags:33", "channel"], kind="channel", tags=["tag%02d" % i for i in range(33)])
+    # length of the path: literal segments, variables
+    for n in (17, 33):
+        add(["path-segments:%d" % n], path_suffix=("".join("/s%d" % i for i in range(n - 1)), [], None))
+    for n in (9, 17):
+        vs = ["v%d" % i for i in range(n)]
+        add(["path-variables:%d" % n], path_suffix=("".join("/{%s}" % v for v in vs), vs, None))
+    vs = ["w%d" % i for i in range(17)]
+    add(["path-segments:34", "path-variables:17"],
+        path_suffix=("".join("/k%d/{%s}" % (i, v) for i, v in enumerate(vs))[:-0 or None], vs, None))
+    add(["path-segments:18", "wildcard"], unpublished=True,
+        path_suffix=("".join("/s%d" % i for i in range(16)) + "/{rest:.*}", ["rest"], "rest"))
+    # length of the operation id
+    for n in (255, 256, 257):
+        add(["operation-id-chars:%d" % n], operation_id=("op%d_" % n + "x" * n)[:n])
+    add(["operation-id-chars:256", "multi-byte"], operation_id="ü" * 256)
+    add(["operation-id-chars:257", "channel"], kind="channel", operation_id=("ch_" + "y" * 257)[:257])
+    # doc comments
+    for n in (17, 65, 257):
+        for style in ("line", "block-decorated", "block-plain", "attr", "attr-per-line"):
+            add(["doc-lines:%d" % n, "doc-style:" + style], doc=large_doc(rng, n, style))
+    for style in ("line", "block-decorated", "block-plain", "attr"):
+        add(["doc-bytes:8KiB", "doc-style:" + style], doc=large_doc(rng, 0, style, target_bytes=8192))
+    add(["doc-lines:65", "channel"], kind="channel", doc=large_doc(rng, 65, "block-decorated"))
+    add(["doc-summary-bytes:8KiB"], doc=[("line", " " + " ".join("w%d" % i for i in range(1500))),
+                                         ("line", ""), ("line", " d")])
+    add(["doc-leading-blank-lines:257"], doc=[("line", " " * (i % 3)) for i in range(257)] +
+        [("line", " Summary after 257 blanks"), ("line", ""), ("line", " Description")])
+    add(["doc-paragraphs:129"], doc=[("line", " S")] + sum(
+        [[("line", ""), ("line", " paragraph %d" % i)] for i in range(129)], []))
+    add(["doc-hyphen-chain:65"], doc=[("line", " S")] + [("line", " part%d-" % i) for i in range(65)] +
+        [("line", " end")])
+    # request_body_max_bytes
+    for expr, val in [("0", 0), ("1", 1), ("u32::MAX as usize", (1 << 32) - 1), ("4294967296", 1 << 32),
+                      ("i64::MAX as usize", (1 << 63) - 1), ("usize::MAX", (1 << 64) - 1),
+                      ("65535", 65535), ("65536", 65536)]:
+        add(["max-bytes:" + expr.split()[0]], method="PUT", body="typed", max_bytes=(expr, val))
+    # version bounds with large numbers
+    big, big3, big2 = LARGE_VERSIONS[0], LARGE_VERSIONS[1], LARGE_VERSIONS[2]
+    for i, v in enumerate([
+            {"form": "from", "a": {"lit": big}},
+            {"form": "until", "b": {"lit": big3}},
+            {"form": "fromuntil", "a": {"lit": big2}, "b": {"lit": big}},
+            {"form": "fromuntil", "a": {"lit": big3}, "b": {"lit": big3}},
+            {"form": "fromuntil", "a": {"ident": vconst(big2), "value": big2},
+             "b": {"ident": "vers::" + vconst(big3), "value": big3}},
+            {"form": "from", "a": {"lit": LARGE_VERSIONS[3]}},
+            {"form": "fromuntil", "a": {"lit": "255.256.257"}, "b": {"lit": LARGE_VERSIONS[3]}}]):
+        add(["version-numbers:u64"], versions=v, kind="channel" if i == 4 else "endpoint")
+    # every extractor position used (the macro's maximum: 3), with long everything
+    add(["extractors:3", "tags:9", "path-variables:9"], method="POST", body="typed", query=True,
+        tags=["t%d" % i for i in range(9)],
+        path_suffix=("".join("/{p%d}" % i for i in range(9)), ["p%d" % i for i in range(9)], None))
+    # number of endpoints in one API (trait / free functions): fill up to 260
+    n_special = len(out)
+    while len(out) < 260:
+        add(["endpoints-in-one-api:260"] if len(out) in (n_special, 64, 65, 128, 129, 255, 256, 259) else [],
+            method=METHODS[len(out) % len(METHODS)])
+    return out
+
+
 # ----------------------------------------------------------------- trait-level tag_config
 
 TC_TAGSETS = {
@@ -716,6 +838,12 @@ def tagcfg_configs():
     out.append({"allow_other_tags": True, "policy": None, "tagset": "empty", "tags": []})
     out.append({"allow_other_tags": None, "policy": "AtLeastOne", "tagset": "one", "tags": TC_TAGSETS["one"]})
     out.append({"allow_other_tags": None, "policy": "ExactlyOne", "tagset": "empty", "tags": []})
+    # many defined tags
+    for n in (33, 65):
+        tags = [{"name": "t%d" % i, "description": ("tag number %d" % i) if i % 2 else None,
+                 "ext": {"description": None, "url": "https://example.com/t%d" % i} if i % 3 == 0 else None}
+                for i in range(1, n + 1)]
+        out.append({"allow_other_tags": False, "policy": "AtLeastOne", "tagset": "large:%d" % n, "tags": tags})
     return [{"idx": i, "config": c} for i, c in enumerate(out)]
 
 
@@ -724,7 +852,10 @@ def tagcfg_eps():
     tag, two configured tags, no tag but unpublished (exempt), configured + foreign"""
     out = []
     for i, (tags, unp) in enumerate([([], False), (["t1"], False), (["zz"], False),
-                                     (["t1", "t2"], False), ([], True), (["t1", "zz"], False)]):
+                                     (["t1", "t2"], False), ([], True), (["t1", "zz"], False),
+                                     # a foreign tag in ninth position, after eight configured ones
+                                     (["t1", "t2"] * 4 + ["zz"], False),
+                                     (["t%d" % i for i in range(1, 34)], False)]):
         out.append({"idx": i, "label": "tagcfg", "kind": "endpoint", "name": "tc_e%d" % i,
                     "path": "/tc/e%d" % i, "path_vars": [], "wildcard": None,
                     "witness_path": "/tc/e%d" % i, "tags": tags, "operation_id": None,
@@ -883,6 +1014,22 @@ def refuse_decls(rng, batch):
         b3 = dict(base)
         b3["content_type"] = None
         add(refused, "content-type", raw_ct=ct, kind="endpoint", versions=None, **b3)
+    # long pre-release / build strings (refused like short ones)
+    for s_, refused in [("1.0.0-" + ".".join("pre%d" % i for i in range(64)), True),
+                        ("1.0.0+" + "b" * 300, True),
+                        ("1.0.0-" + "9" * 300, True),
+                        (U64 + "." + U64 + "." + U64, False),
+                        ("18446744073709551616.0.0", True)]:
+        add(refused, "literal-syntax-long", raw_versions='"%s"..' % s_, kind="endpoint",
+            versions={"form": "from", "a": {"lit": s_}}, **base)
+    # number of extractor parameters: the maximum is 3 (two shared + the exclusive one)
+    for extra, refused in [(0, False), (1, True), (2, True)]:
+        b5 = dict(base)
+        b5.update(method="PUT", body="typed", path_suffix=("/{id}", ["id"], None))
+        add(refused, "arity", kind="endpoint", versions=None, **b5)
+        out[-1]["query"] = True
+        out[-1]["extra_queries"] = extra
+        out[-1]["extractors"] = 3 + extra
     # two errors at once
     b4 = dict(base)
     b4.update(path_suffix=("/{rest:.*}", ["rest"], "rest"), content_type=None)
@@ -896,9 +1043,11 @@ def render_refuse(batch, decls):
     consts = "".join("pub const %s: semver::Version = semver::Version::new(%s);\n" % (
         vconst(v), ", ".join(v.split("."))) for v in VERSIONS)
     head = ("#![allow(dead_code, unused_imports)]\nuse dropshot::{channel, endpoint, HttpError, HttpResponseOk, Path, "
-            "RequestContext, WebsocketChannelResult, WebsocketConnection};\nuse schemars::JsonSchema;\n"
+            "Query, TypedBody, RequestContext, WebsocketChannelResult, WebsocketConnection};\nuse schemars::JsonSchema;\n"
             "use serde::{Deserialize, Serialize};\n" + consts +
-            "#[derive(Serialize, JsonSchema)]\npub struct Reply { pub ok: bool }\n")
+            "#[derive(Serialize, JsonSchema)]\npub struct Reply { pub ok: bool }\n"
+            "#[derive(Deserialize, JsonSchema)]\npub struct QueryArgs { pub q: Option<String> }\n"
+            "#[derive(Deserialize, JsonSchema)]\npub struct BodyArgs { pub x: String }\n")
     lines = head.split("\n")
     if lines[-1] == "":
         lines.pop()
@@ -925,16 +1074,26 @@ def render_refuse(batch, decls):
 
 def main():
     ap = argparse.ArgumentParser()
-    ap.add_argument("--batch", type=int, required=True)
+    ap.add_argument("--batch", type=int, default=0)
     ap.add_argument("--seed", type=int)
     ap.add_argument("--n", type=int, default=130)
     ap.add_argument("--out", default=os.path.join(os.path.dirname(os.path.abspath(__file__)),
                                                   "..", "src", "bin", "c19"))
     ap.add_argument("--refuse", action="store_true")
+    ap.add_argument("--large", action="store_true", help="write large.rs / large.json (batch %d)" % LARGE_BATCH)
     a = ap.parse_args()
     seed = a.batch if a.seed is None else a.seed
     rng = random.Random(seed * 1000003 + 17)
     os.makedirs(a.out, exist_ok=True)
+    if a.large:
+        rng = random.Random(424242)
+        decls = large_decls(rng)
+        src = render_batch(LARGE_BATCH, 424242, decls, [], extra_versions=LARGE_VERSIONS)
+        src = src.replace('include_str!("batch%d.json")' % LARGE_BATCH, 'include_str!("large.json")')
+        open(os.path.join(a.out, "large.rs"), "w").write(src)
+        json.dump({"batch": LARGE_BATCH, "seed": 424242, "decls": decls, "panics": []},
+                  open(os.path.join(a.out, "large.json"), "w"), indent=0, ensure_ascii=False)
+        return
     if a.refuse:
         decls = refuse_decls(rng, a.batch)
         src, spans = render_refuse(a.batch, decls)
